@@ -180,6 +180,25 @@ fn to_dyn_outlives(variant: u64) {
 /// for): a writer is refused while a reader is alive and vice versa, through the concrete handle
 /// and through a trait-object handle. If a conflicting borrow were granted, the uses below would
 /// be a `&`/`&mut` overlap or a dangling element reference, which the interpreter reports.
+/// Several SHARED borrows of one target held at once by one thread - through one handle and through
+/// clones - for every variant that allows them (all but the Mutex-backed ones): `a.borrow().x +
+/// b.borrow().y` is ordinary use. A variant whose second shared borrow waits for the first never
+/// returns: the interpreter reports the deadlock.
+fn shared_borrows_coexist() {
+    println!("CASE refs shared_borrows_coexist");
+    let rc = rc_ref_cell_reference(5i64);
+    let rw = arc_rw_lock_reference(6i64);
+    let st = static_reference!(i64, 7);
+    let srw = static_rw_lock_reference!(i64, 8);
+    for (r, want) in [(rc, 5i64), (rw, 6), (st, 7), (srw, 8)] {
+        let r2 = r.clone();
+        let a = r.borrow();
+        let b = r2.borrow();
+        let c = r.borrow();
+        assert_eq!(*a + *b + *c, 3 * want);
+    }
+}
+
 fn overlap_rules() {
     println!("CASE refs overlap_rules");
     let r = rc_ref_cell_reference(vec![1i64, 2, 3]);
@@ -340,8 +359,9 @@ fn main() {
         to_dyn_outlives(v);
     }
     overlap_rules();
+    shared_borrows_coexist();
     thread_crossing();
     statics();
     threads();
-    println!("DONE cases={}", cases + 7);
+    println!("DONE cases={}", cases + 8);
 }
